@@ -57,7 +57,7 @@ type judge struct {
 func (j *judge) replayOf(si int, what string, extra map[string]any) map[string]any {
 	m := map[string]any{"driver": "pipeline-" + j.variant, "behaviour": j.b.Name, "step": si, "what": what,
 		"config": map[string]any{"burst": j.b.Burst, "storeCap": j.b.StoreCap, "entryBurst": j.b.EntryBurst,
-			"clients": j.b.Clients, "forms": j.b.Forms},
+			"clients": j.b.Clients, "forms": j.b.Forms, "aliases": j.b.Aliases, "aliasTarget": j.b.AliasTarget},
 		"steps": j.b.Steps[:min(si+1, len(j.b.Steps))]}
 	for k, v := range extra {
 		m[k] = v
@@ -265,10 +265,46 @@ func (j *judge) entryVerdicts(si int, q *request, o observation, before int, cac
 	if cached && before == 0 && q.st.Ex != "internal" && o.Replied && o.Rcode == 0 {
 		j.violate(si, "rl/entry-served-over-budget", "a cached answer was served although its entry limiter was empty", ctx)
 	}
+	// ---- C17: resolver-internal sub-queries are never subjected to client rate-limit policy ---------------
 	if q.st.Ex == "internal" && before != after {
-		j.violate(si, "rl/entry-charged-internal", "an internal request was charged to the entry limiter", ctx)
+		j.violate(si, "c17/internal-charged/request", "an internal request was charged to the cache's per-entry client rate limiter", ctx)
+	}
+	if q.st.Ex == "internal" && !o.Replied && !o.Handoff {
+		j.violate(si, "c17/internal-refused/request", fmt.Sprintf("an internal request got no answer: the cache's per-entry client rate "+
+			"limiter (ratelimit = %d, %d tokens left, entry cached: %v) was applied to it", j.b.EntryBurst, before, cached), ctx)
 	}
 	return paid
+}
+
+// chaseVerdicts: a client's alias question makes the cache chase the CNAME target through its internal Queryer; that
+// sub-query is not a client's (C17): the target entry's limiter neither refuses it nor is charged for it.
+// tb / ta: tokens of the TARGET entry's limiter before / after the call (-1 unknown); tcached: the target was cached.
+func (j *judge) chaseVerdicts(si int, q *request, o observation, target string, tb, ta int, tcached bool) {
+	if j.b.EntryBurst <= 0 || target == "" {
+		return
+	}
+	ctx := map[string]any{"seen": o.seen(), "alias": q.name, "target": target, "target_tokens_before": tb, "target_tokens_after": ta,
+		"target_cached_before": tcached, "entry": q.st.Entry, "reply": hex.EncodeToString(o.Reply)}
+	if o.Replied && o.Rcode == 0 && !o.TC && tcached && tb == 0 {
+		j.res.Count("chase_on_empty", 1) // the state the guard exists for was driven
+	}
+	origin := "" // the headline cases are a client's question; a chase run for an internal request is booked apart
+	if q.st.Ex == "internal" {
+		origin = "-of-internal"
+	}
+	if o.Partial {
+		if tcached && tb == 0 {
+			j.violate(si, "c17/internal-refused/chase"+origin, fmt.Sprintf("the cache's internal chase of the CNAME target %s was refused by the target "+
+				"entry's client rate limiter (ratelimit = %d, 0 tokens left): the client asking %s got the CNAME alone", target, j.b.EntryBurst, q.name), ctx)
+		} else {
+			j.violate(si, "rl/chase-incomplete", fmt.Sprintf("the answer to the alias question %s carries the CNAME alone (target %s: cached %v, %d tokens)",
+				q.name, target, tcached, tb), ctx)
+		}
+	}
+	if tb >= 0 && ta >= 0 && ta < tb {
+		j.violate(si, "c17/internal-charged/chase"+origin, fmt.Sprintf("the cache's internal chase of the CNAME target %s was charged to the target "+
+			"entry's client rate limiter (%d -> %d tokens) although no client asked for it", target, tb, ta), ctx)
+	}
 }
 
 func describe(b bucketObs) string {
@@ -317,6 +353,10 @@ func (j *judge) compare(si int, st step, o observation, after map[string]bucketO
 		}
 		if st.Exp.Tl != o.TailDelta {
 			j.drift(si, "model asks the upstream %d times, code %d", st.Exp.Tl, o.TailDelta)
+			return
+		}
+		if st.Exp.Part != o.Partial {
+			j.drift(si, "model: reply lacks the chase target = %v, code %v", st.Exp.Part, o.Partial)
 			return
 		}
 		if o.Replied {
@@ -398,6 +438,11 @@ func runBehaviour(res sink, book *cookieBook, b *behaviour, forceMsg bool) (recs
 	if rerr != nil {
 		return nil, false, rerr
 	}
+	r.setAliases(b.Aliases, b.AliasTarget)
+	isAlias := map[string]bool{}
+	for _, a := range b.Aliases {
+		isAlias[a] = true
+	}
 	j := &judge{res: res, r: r, b: b, variant: variant, quiet: forceMsg}
 	if !r.clientOnly {
 		j.violate(0, "rl/not-client-only", "the limiter does not declare itself client-only: internal sub-pipelines would run it", nil)
@@ -469,11 +514,26 @@ func runBehaviour(res sink, book *cookieBook, b *behaviour, forceMsg bool) (recs
 				}
 			}
 			q := r.build(eff, si+1)
+			target, tb, tcached := "", -1, false
+			if isAlias[st.Q] && b.EntryBurst > 0 {
+				// the chase target's limiter is watched (and frozen) as well
+				target = r.qname(b.AliasTarget)
+				if _, bad := r.entryLimiter(target); bad == "collision" {
+					return recs, false, fmt.Errorf("entry limiter pool collision")
+				}
+				tb, tcached = r.entryState(target)
+			}
 			before, lb := r.projection(), r.rl.VerifLen()
 			eb, ecached := r.entryState(q.name)
 			o := r.serve(q)
 			after, la := r.projection(), r.rl.VerifLen()
 			epaid := j.entryVerdicts(si, q, o, eb, ecached, 0)
+			if target != "" {
+				j.chaseVerdicts(si, q, o, target, tb, r.entryTokens(target), tcached)
+				if !forceMsg {
+					res.Count("alias_calls", 1)
+				}
+			}
 			if o.Handoff {
 				inlineEntryPaid[st.ID] = epaid
 			}
